@@ -173,6 +173,8 @@ func extraAlphabet() []Choice {
 		multiB("[award(k9,4),award(k3,6)]", chain.Event{Kind: "award", Who: 9, Amount: 4}, chain.Event{Kind: "award", Who: 3, Amount: 6}),
 		multiB("[unstake(k0),unstake(k1)]", txE(chain.TxSpec{Msg: "unstake", From: 0}), txE(chain.TxSpec{Msg: "unstake", From: 1})),
 		multiB("[send,send] 2 fees", txE(chain.TxSpec{Msg: "send", From: 3, To: 2, Amount: 1}), txE(chain.TxSpec{Msg: "send", From: 4, To: 2, Amount: 1})),
+		// the first transaction of an account that came into existence by receiving a transfer (no public key on record)
+		multiB("[send(k3->k9,50000),send(k9->k2,1)]", txE(chain.TxSpec{Msg: "send", From: 3, To: 9, Amount: 50000}), txE(chain.TxSpec{Msg: "send", From: 9, To: 2, Amount: 1})),
 		{Label: "miss(k0,k1)", Block: chain.Block{Missed: []int{0, 1}}},
 		{Label: "evidence(k0,power=10)", Block: chain.Block{Evidence: []chain.Evidence{{Val: 0, HeightAgo: 1, Age: time.Second, Power: 10}}}},
 		{Label: "evidence(k0,old)", Block: chain.Block{Evidence: []chain.Evidence{{Val: 0, HeightAgo: 1, Age: 121 * time.Second}}}},
@@ -260,6 +262,10 @@ func rewardAlphabet() []Choice {
 		txB("send(k3->fee collector,1000)", chain.TxSpec{Msg: "send_module", From: 3, Key: "fee_collector", Amount: 1000}),
 		// an award to the zero-length address
 		evB("award(empty address,5)", chain.Event{Kind: "award", Who: chain.EmptyIndex, Amount: 5}),
+		// awards whose recipient is one of the accounts the fee distribution itself moves coins through
+		evB("award(fee collector,6)", chain.Event{Kind: "award", Who: chain.FeeIndex, Amount: 6}),
+		Choice{Label: "award(fee collector,6) + send", Block: chain.Block{Events: []chain.Event{{Kind: "award", Who: chain.FeeIndex, Amount: 6}, txE(chain.TxSpec{Msg: "send", From: 3, To: 2, Amount: 1})}}},
+		evB("award(pos module account,6)", chain.Event{Kind: "award", Who: chain.PosIndex, Amount: 6}),
 		// two awards to one address whose sum passes 2^63
 		multiB("[award(k3,2^63-1),award(k3,1)]", chain.Event{Kind: "award", Who: 3, Amount: 1<<63 - 1}, chain.Event{Kind: "award", Who: 3, Amount: 1}),
 		// awards queued in the block whose EndBlock completes the recipient's unstaking
@@ -345,6 +351,9 @@ func jailAlphabet() []Choice {
 		{Label: "miss(k0)+dt=2s", Block: chain.Block{Missed: []int{0}, DT: 2 * time.Second}},
 		{Label: "evidence(k0)", Block: chain.Block{Evidence: []chain.Evidence{{Val: 0, HeightAgo: 1, Age: time.Second}}}},
 		{Label: "evidence(k0)+miss(k0)", Block: chain.Block{Missed: []int{0}, Evidence: []chain.Evidence{{Val: 0, HeightAgo: 1, Age: time.Second}}}},
+		// evidence exactly as old as allowed convicts, one nanosecond older does not
+		{Label: "evidence(k0,age=max)", Block: chain.Block{Evidence: []chain.Evidence{{Val: 0, HeightAgo: 1, Age: 120 * time.Second}}}},
+		{Label: "evidence(k0,age=max+1ns)", Block: chain.Block{Evidence: []chain.Evidence{{Val: 0, HeightAgo: 1, Age: 120*time.Second + time.Nanosecond}}}},
 		txB("unjail(k0)", chain.TxSpec{Msg: "unjail", From: 0}),
 		Choice{Label: "dt=2s-1ns unjail(k0)", Block: chain.Block{DT: 2*time.Second - time.Nanosecond, Events: []chain.Event{txE(chain.TxSpec{Msg: "unjail", From: 0})}}},
 		Choice{Label: "dt=2s unjail(k0)", Block: chain.Block{DT: 2 * time.Second, Events: []chain.Event{txE(chain.TxSpec{Msg: "unjail", From: 0})}}},
@@ -431,7 +440,7 @@ func statePreludes() map[string][]chain.Block {
 		// k0 missed blocks, unstaked completely and was removed (its signing info stays behind)
 		"k0-removed-with-misses": {{Missed: []int{0}}, {Events: []chain.Event{txE(chain.TxSpec{Msg: "unstake", From: 0})}}, {Missed: []int{0}, DT: 2 * time.Second}, {DT: 2 * time.Second}},
 		// k0's power has changed once while it was in the set (2 -> 1)
-		"k0-slashed-half": {{Events: []chain.Event{{Kind: "burn", Who: 0, Sev: "0.5"}}}, {}},
+		"k0-slashed-half":     {{Events: []chain.Event{{Kind: "burn", Who: 0, Sev: "0.5"}}}, {}},
 		"k2-joined-k0-jailed": {{Events: []chain.Event{txE(chain.TxSpec{Msg: "stake", From: 2, Amount: 2 * min})}}, {Missed: []int{0}}, {Missed: []int{0}}},
 	}
 }
